@@ -164,8 +164,8 @@ Section ForPhase.
     destruct g as [s|n d]; [exact Hg|]. cbn [subst_seg]. unfold value_of.
     destruct (lookup String.eqb n a) as [v|] eqn:E.
     - cbn [seg_ok]. clear -Hv E. induction a as [|[k x] a' IHa]; [discriminate|]. cbn [forallb lookup snd] in *.
-      apply andb_prop in Hv as [H1 H2]. destruct (String.eqb n k); [inversion E; subst; exact H1|exact (IHa H2 E)].
-    - destruct d as [d|]; cbn [seg_ok] in *; [apply andb_prop in Hg as [_ Hd]; exact Hd|exact Hg].
+      apply andb_prop in Hv as [H1 H2]. destruct (String.eqb n k); [inversion E; subst; exact (no_lg_lit_ok _ H1)|exact (IHa H2 E)].
+    - destruct d as [d|]; cbn [seg_ok] in *; [apply andb_prop in Hg as [_ Hd]; exact (no_lg_lit_ok _ Hd)|exact Hg].
   Qed.
 
   Lemma mentions_subst n l : mentions n (subst a l) = true -> mentions n l = true.
